@@ -72,6 +72,37 @@ CLAIMED.update({
             TECH + "; differential against an in-harness reference", "4/C38"),
 })
 
+CLAIMED.update({
+    "C04": ("Data flow posteriors -> metadata on the real code with symbolic posteriors: get_modified_ts/"
+            "set_time_metadata write row i = (mean[i], var[i]) for nodes and mutations (nothing for maximization); "
+            "VariationalGammaMethod.run hands over node_posteriors()/mutation_posteriors() = ((a+1)/b, mean/b), (time,0) "
+            "for samples, NaN kept; InsideOutsideMethod.run rows are >= 0, sum to 1, mn/vr are the rows' moments.",
+            "tskit tables/schemas are recording stubs; JSON float round trip and tables.sort() row handling trusted.",
+            TECH + "; data-flow obligations on symbolic terms", "4/C04"),
+    "C05": ("Inductive invariant (alpha > -1, beta > 0, alpha+1 <= max_shape) proved preserved by every update rule of "
+            "propagate_likelihood (phased and unphased), propagate_prior, from an arbitrary symbolic state on graphs "
+            "with <= 5 nodes, moments 'NaN or arbitrary'; 14 projection wrappers skip-or-valid; infer's flip leaves "
+            "phases NaN or in [0.5,1] and passes max_shape to rescale; approximate_gamma_iqr shape in (0,max_shape].",
+            "Moment functions are over-approximated (their finiteness in floating point is not claimed); max_shape > 1; "
+            "Newton loop of approximate_gamma_iqr followed for <= 2 iterations; exact reals.",
+            TECH + "; inductive step from an arbitrary state, QF_NRA", "4/C05"),
+    "C20": ("ExpectationPropagation.iterate run symbolically from the initial state on stars (2-3 leaves, two stars, "
+            "two-tree polytomy; 1-3 sweeps quick, up to 5 / 4 leaves thorough) with symbolic counts, spans, max_shape: "
+            "uncapped => shape = 1 + sum(y), rate = sum(mu) after every sweep (proved); capped => one-factor scaling "
+            "(fails: known finding F12, replayed through variational_gamma).",
+            "min_step = 0.1, regularise off, no rescaling; exact reals.", TECH + "; QF_NRA", "4/C20"),
+    "C21": ("Inductive invariant posterior = scale x (prior + constraint + edge + block messages), scale > 0, fixed rows "
+            "untouched: proved preserved by every update rule of propagate_likelihood, by propagate_prior and "
+            "_rescale_factors (which also leaves posteriors unchanged with scale = 1) from an arbitrary symbolic state.",
+            "Moment functions over-approximated; pre-state satisfies C05's invariant; exact reals (TINY-threshold "
+            "cancellation is a floating-point matter).", TECH + "; inductive step from an arbitrary state, QF_NRA", "4/C21"),
+    "C32": ("set_time_metadata's decision table explored completely over set_metadata x schema kind x existing "
+            "metadata x 0-3 rows x var None, with symbolic values: untouched / written keeping fields / refused with "
+            "a warning / dropped + default schema, every row carrying exactly the caller's mn, vr.",
+            "tskit codecs abstracted to can/cannot encode (recording stub); policy logic only.",
+            TECH + "; exhaustive enumeration of the discrete configuration space", "4/C32"),
+})
+
 NOT_APPLICABLE = {
     "C02": "Every row/column effect of get_modified_ts happens inside tskit's C table routines on concrete "
            "arrays; no symbolic input reaches a branch of tsdate code, so there is nothing for a solver to "
